@@ -36,6 +36,7 @@ theorem tr_recv (hl : ∀ s, (cfg.lower s).length = s.length) (n : Nat) (ih : Tr
   | hash k v r => exact recv_to_asg cfg sfh _ c hc (tr_hash cfg sfh n ih k v r b c hw H h1 h2')
   | typ x => exact recv_to_asg cfg sfh _ c hc (tr_typ cfg sfh n ih x b c hw H h1 h2')
   | sensitive x => exact recv_to_asg cfg sfh _ c hc (tr_sensitive cfg sfh n ih x b c hw H h1 h2')
+  | iterator x => exact recv_to_asg cfg sfh _ c hc (tr_iterator cfg sfh n ih x b c hw H h1 h2')
   | variant as =>
     have fa := H.fa; unfold Ty.TF at fa
     simp only [Ty.w] at hw
